@@ -276,8 +276,18 @@ def nul_cut(prog: Program):
         """the `size` raw bytes: the data parameter, or struct.unpack(f"{size}s", data)[0]"""
         if isinstance(e, ast.Name) and e.id == data_p:
             return True
-        if isinstance(e, ast.Subscript) and norm(e.slice) == "0" and isinstance(e.value, ast.Call) and norm(e.value.func) == "struct.unpack":
-            return True
+        if isinstance(e, ast.Subscript) and norm(e.slice) == "0" and isinstance(e.value, ast.Call) and norm(e.value.func) in ("struct.unpack", "unpack") and len(e.value.args) == 2:
+            # .. with a format that is the whole field: f"{size}s" (or "%ds" % size, str(size) + "s", "{}s".format(size)) - a format with
+            # a pad (`x`) or a shorter count keeps bytes of the field away from the NUL search
+            fmt, src = e.value.args
+            size_p = f.params[0] if f.params else None
+            whole = False
+            if isinstance(fmt, ast.JoinedStr) and len(fmt.values) == 2 and isinstance(fmt.values[0], ast.FormattedValue) and isinstance(fmt.values[0].value, ast.Name) \
+                    and fmt.values[0].value.id == size_p and fmt.values[0].format_spec is None and isinstance(fmt.values[1], ast.Constant) and fmt.values[1].value == "s":
+                whole = True
+            elif norm(fmt).replace('"', "'") in (f"'%ds' % {size_p}", f"'%is' % {size_p}", f"str({size_p}) + 's'", f"'{{}}s'.format({size_p})", f"'%ds' % ({size_p},)"):
+                whole = True
+            return whole and isinstance(src, ast.Name) and src.id == data_p
         return False
 
     def nul_pos(e, fld):
